@@ -288,6 +288,9 @@ def _build_ops(rng, nodes, creates, mode, state, upto):
         if kind == "addclass":
             _add_class(rng, conn, log, c)
             continue
+        if kind == "modifyends":
+            _modify_ends(state["rrng"], conn, log, made, nodes, c, state)
+            continue
         roles = ROLES[c["cls"]]
         ends = []
         nulls = []
@@ -359,6 +362,35 @@ def _build_ops(rng, nodes, creates, mode, state, upto):
                     state["rejected"] += 1
     state["pos"] = upto
     return conn, log, state
+
+
+def _modify_ends(rng, conn, log, made, nodes, c, state):
+    """ModifyInstance of the reference properties of the Va_Loose instance
+    made by creates[c["target"]] (AssocImpl!ModifyEnds), addressed to its
+    copy in namespace c["ns"]: the non-zero ends of c["ends"] are set (a
+    partial instance + PropertyList, so that absent / NULL references of
+    the stored instance are not sent back)."""
+    path = made[c["target"]].copy()
+    path.namespace = NSNAME[c["ns"]]
+    props = []
+    for r, e in zip(ROLES[c["cls"]], c["ends"]):
+        if e:
+            p = node_path(rng, nodes[e - 1], e, vary=True)
+            p.namespace = NSNAME[nodes[e - 1]["ns"]]
+            props.append(CIMProperty(maybe_recase(rng, ROLENAME[r], 0.3), p,
+                                     type="reference"))
+    rng.shuffle(props)
+    log.append("ModifyInstance(%s) %s" % (path, ", ".join(
+        "%s=%s" % (p.name, p.value) for p in props)))
+    try:
+        inst = CIMInstance(maybe_recase(rng, path.classname, 0.3),
+                           properties=props, path=respell(rng, path))
+        conn.ModifyInstance(inst, PropertyList=[
+            maybe_recase(rng, p.name, 0.3) for p in props])
+        state["endsmodified"] = state.get("endsmodified", 0) + 1
+    except Exception as exc:  # noqa: the build is not judged, only logged
+        log.append("  -> %s: %s" % (type(exc).__name__, exc))
+        state["endsrefused"] = state.get("endsrefused", 0) + 1
 
 
 def _modify(rng, conn, log, made, nmod, c):
@@ -779,7 +811,9 @@ def run_job(job):
     return {"trace": trace, "log": log, "lists": fl, "ncalls": ncalls,
             "nnodes": len(stored.nodes), "nassocs": len(stored.assocs),
             "rejected": state["rejected"],
-            "notrejected": state["notrejected"]}
+            "notrejected": state["notrejected"],
+            "endsmodified": state.get("endsmodified", 0),
+            "endsrefused": state.get("endsrefused", 0)}
 
 
 def _traverse(rng, job, conn, stored, fl, trace, gop, after, quiet):
